@@ -102,3 +102,13 @@ Definition Ss2 (s : vseries) (k : ckey) (key : lkey val) : vres :=
 Definition Mxl2 (kr kc : axkind) (rk ck : ckey) (derived : vframe) (rkey ckey_ : lkey val) : vres :=
   Mxl (derived_kind true rk kr) (derived_kind true ck kc) derived rkey ckey_.
 Definition Msl2 (derived : vseries) (key : lkey val) : vres := Msl KMap derived key.
+
+(* ---- select, grow the source or the result, select again on the other (api:select-then-grow) ----
+   S: the second selection applied to what the specification says the first selection of the SNAPSHOT
+   (the receiver before anything grew) returns *)
+Definition Sxx (f : vframe) (rk1 ck1 rk2 ck2 : ckey) : vres :=
+  match Sx f rk1 ck1 with
+  | Ok (XFrame i c d n) => S_extract val_eqb rdt_val (mk_sframe i c d n) rk2 ck2
+  | Ok _ => Err "not a frame"
+  | Err e => Err e
+  end.
